@@ -1,11 +1,15 @@
 package streams
 
 import (
+	"context"
 	"math/rand"
 
 	corev1 "k8s.io/api/core/v1"
 	metav1 "k8s.io/apimachinery/pkg/apis/meta/v1"
+	"k8s.io/apimachinery/pkg/types"
 	"sigs.k8s.io/controller-runtime/pkg/client"
+
+	edsv1 "github.com/DataDog/extendeddaemonset/api/v1alpha1"
 )
 
 // switchClient lets one reconciler instance be run against one world and then against another: the
@@ -37,9 +41,35 @@ func perturbNodes(r *rand.Rand, objs []client.Object) []client.Object {
 		}
 		out = append(out, o.DeepCopyObject().(client.Object))
 	}
+	// settings keep their names but select other nodes
+	for i, o := range out {
+		if st, ok := o.(*edsv1.ExtendedDaemonsetSetting); ok && r.Intn(2) == 0 {
+			c := st.DeepCopy()
+			c.Spec.NodeSelector = metav1.LabelSelector{MatchLabels: map[string]string{"zone": "a"}}
+			out[i] = c
+		}
+	}
 	for k := 0; k < 1+r.Intn(6); k++ {
 		out = append(out, &corev1.Node{ObjectMeta: metav1.ObjectMeta{Name: "warm-extra-" + string(rune('a'+k)),
 			Labels: map[string]string{"zone": "a", "disk": "ssd"}}})
 	}
 	return out
+}
+
+// staleGetClient returns, for the first n Gets of key, the object as it was earlier (an informer
+// cache lagging behind a write); everything else goes to the API.
+type staleGetClient struct {
+	client.Client
+	key   types.NamespacedName
+	stale *edsv1.ExtendedDaemonSet
+	n     int
+}
+
+func (s *staleGetClient) Get(ctx context.Context, key client.ObjectKey, obj client.Object, opts ...client.GetOption) error {
+	if d, ok := obj.(*edsv1.ExtendedDaemonSet); ok && key == s.key && s.n > 0 {
+		s.n--
+		s.stale.DeepCopyInto(d)
+		return nil
+	}
+	return s.Client.Get(ctx, key, obj, opts...)
 }
